@@ -300,6 +300,33 @@ func (bp *BoundsProver) dbmForC(cn *Canon, at ssa.Instruction, exprs ...lin) *DB
 	}
 	bp.f.addImplicit(d, more)
 	d.close()
+	if cn != nil && len(cn.sums) > 0 {
+		// a sum of two terms that are both known to be non-negative is non-negative (no wrap-around for the sizes at
+		// hand: cursor positions and small constant offsets)
+		added := false
+		for b, ts := range cn.sums {
+			var tb []string
+			for _, t := range ts {
+				if t.base != "" {
+					tb = append(tb, t.base)
+				}
+			}
+			bp.f.addImplicit(d, tb)
+			for _, t := range ts {
+				if lo, ok := cn.lower[t.base]; ok {
+					d.add("", t.base, -lo, "counter/parameter lower bound")
+				}
+			}
+			d.close()
+			if d.proves(lin{"", 0}, token.LEQ, ts[0]) && d.proves(lin{"", 0}, token.LEQ, ts[1]) {
+				d.add("", b, 0, "sum of two non-negative terms ("+linStr(ts[0])+" + "+linStr(ts[1])+")")
+				added = true
+			}
+		}
+		if added {
+			d.close()
+		}
+	}
 	return d
 }
 
